@@ -302,7 +302,9 @@ class Check(common.Check):
         ops = []
         for _ in range(rng.randint(3, 40)):
             r = rng.random()
-            if r < 0.06:
+            if r < 0.04:
+                ops.append('refuse ' + rng.choice(['sendlist', 'loadlist', 'noframes', 'abus', 'cbus']))
+            elif r < 0.1:
                 # free_all with multi-number ranges alive, then allocations that need those numbers
                 ops.append(f'buf {rng.randint(2, 4)} 0')
                 ops.append('bfreeall')
@@ -383,6 +385,8 @@ class Check(common.Check):
                 lines += [f'use {w[1]}', 'freenone']      # a second free() of an object: nothing happens
             elif w[0] == 'bfreeall':
                 lines += ['use 2', 'freeall']
+            elif w[0] == 'refuse':
+                lines += ['use 2', 'freenone']            # a refused call changes nothing
             else:
                 lines.append('bad')
         return lines
@@ -427,6 +431,10 @@ class Check(common.Check):
                 next(it, None)
                 next(it, None)
                 res.append('refree ok' if freed[int(w[1])] else 'skip')
+            elif w[0] == 'refuse':
+                next(it, None)
+                next(it, None)
+                res.append('refuse raised')
             elif w[0] == 'bfreeall':
                 next(it, None)
                 l = next(it, 'missing')
@@ -460,6 +468,8 @@ class Check(common.Check):
         return res
 
     def compare(self, case, impl_out, model_out):
+        if case['kind'] == 'srv':          # ' #…' annotations are for the oracle only
+            impl_out = [re.sub(r' #[\d,]+$', '', l) for l in impl_out]
         if case['kind'] == 'cba' and any(l.startswith('alloc') and l.endswith(' -1') for l in case['ops']):
             return None               # real random choice: oracle only
         return super().compare(case, impl_out, model_out)
@@ -618,6 +628,13 @@ class Check(common.Check):
                 node_ids.append(int(ow[1]))
             elif w[0] == 'free' and ow[0] == 'free':
                 live[kinds[ow[1]]].pop(int(ow[2]), None)
+            elif w[0] == 'refuse':
+                used = [int(x) for x in o.split('#')[1].split(',')]
+                want = [len(live['cbus']), len(live['abus']), len(live['buf'])]
+                if ow[1] != 'raised' or used != want:
+                    return {'what': f'op #{i} `{line}`: a refused constructor call ({ow[1]}) must leave every allocator '
+                                    f'as it was: used blocks (control, audio, buffer) {used}, live objects {want}',
+                            'signature': 'srv:refused-call-leaks', 'index': i}
             elif w[0] == 'bfreeall' and o == 'bfreeall ok':
                 live['buf'] = {}           # abstract spec: after free_all the whole partition is free
         for x in node_ids:
